@@ -52,6 +52,19 @@ def run(ctx, out):
             q2[k] = [e if e is not None else G.Abs(spec, cfg, {}, ts, tt).replies(k) for e in entries]
         fixed.append((cfg, calls, q2, ts, tt))
     ops, impl = run_histories(ctx, out, fixed, "abort handling")
+    # a slow but talking terminal: every item 14 virtual seconds after the previous one (far less than the 60 s per-packet
+    # time-out; the 4 items of the handshake stay within its 60 s guard), the whole reply script lasting longer than 60 s
+    # — the abort must surface all the same
+    slow = []
+    for code in sorted(set(list(range(0, 256, 16)) + [0x6c, 0xa0, 0xfc, 0xff])):
+        ab, prab = P.abort(code), P.pr_abort(code)
+        slow.append((G.default_cfg(), ["new", f"begin:{T}"], {"0622": [[P.intermediate(), P.intermediate(), P.intermediate(), P.status(receipt_no=5, result_code=0), P.intermediate(), ab]]}, None, None))
+        slow.append((G.default_cfg(), ["new", f"begin:{T}", f"commit:{T}:5"], {"0622": [okb], "0623": [[P.intermediate(), P.intermediate(), P.status(result_code=0, amount=3), P.print_line("x"), P.intermediate(), prab]]}, None, None))
+        slow.append((G.default_cfg(), ["new", f"begin:{T}", f"cancel:{T}"], {"0622": [okb], "0625": [[P.intermediate(), P.intermediate(), P.intermediate(), P.intermediate(), P.intermediate(), prab]]}, None, None))
+        slow.append((G.default_cfg(), ["new", "configure"], {"0693": [[P.completion()], [P.intermediate(), P.print_line("x"), P.intermediate(), P.intermediate(), P.intermediate(), ab]]}, None, None))
+    sops, simpl = run_histories(ctx, out, slow, "abort handling with a slow terminal (14 s between packets)", gap=14)
+    for o in sops:
+        out.count("slow-terminal")
     # identification oracle on the implementation alone
     for o, r, (op, code, idx) in zip(ops, impl, meta):
         out.count(op)
@@ -69,5 +82,6 @@ def run(ctx, out):
                                         "what": f"{op}: terminal abort with result code 0x{code:02x} is not reported as an error identifying that code"})
     out.rule = ("all 256 result codes x {read card, begin, commit, cancel, pending-reversal and end-of-day while going idle, configure: system info, set terminal id, initialisation, pending reversal, end-of-day} "
                 "x position of the abort in the reply script (at once, after intermediate status / print line / status information). The call must fail naming the code (Aborted(c), or for card reading the specification's message "
-                "for c / 'Unknown error code'), with exactly the three documented translations. implementation = model = specification, plus an explicit identification check on the implementation's results")
+                "for c / 'Unknown error code'), with exactly the three documented translations. implementation = model = specification, plus an explicit identification check on the implementation's results. "
+                "Also (implementation vs specification only; the model has no delays): the same with a slow terminal that lets 14 virtual seconds pass before every packet (multi-packet scripts lasting longer than the 60 s per-packet time-out)")
     out.samples = [ops[3][:400], {"op": ops[-1][:200], "impl": impl[-1][:300]}]
